@@ -12,11 +12,34 @@ TREE = 'copulas.multivariate.tree.'
 BUILDERS = [('CenterTree', '_build_first_tree'), ('CenterTree', '_build_kth_tree'), ('DirectTree', '_build_first_tree'),
             ('DirectTree', '_build_kth_tree'), ('RegularTree', '_build_first_tree'), ('RegularTree', '_build_kth_tree')]
 # Branches of the edge-building loops read by hand (rule D2)
-D2_TRIAGE = {
-    ('RegularTree', '_build_kth_tree', 'visited.add(list(unvisited)[0])'):
-        'taken only when no admissible pair exists; the line graph of a tree is connected, so with proximity satisfied by '
-        'adjacent edges the candidate set is never empty before all nodes are visited (dead branch)',
-}
+D2_TRIAGE_REASON = ('taken only when no admissible pair exists; the line graph of a tree is connected, so with proximity satisfied by '
+                    'adjacent edges the candidate set is never empty before all nodes are visited (dead branch)')
+
+
+def _empty_candidates_branch(lp, add_call):
+    """The extra `S.add(...)` sits in `if <candidate set is empty>: ...; continue` directly in the loop body, and that
+    candidate set is what the rest of the iteration picks the new edge from."""
+    st = add_call
+    while st is not None and not isinstance(st, ast.stmt):
+        st = getattr(st, '_parent', None)
+    branch = getattr(st, '_parent', None)
+    if not (isinstance(branch, ast.If) and branch in lp.body and st in branch.body and not branch.orelse
+            and branch.body and isinstance(branch.body[-1], ast.Continue)):
+        return False
+    t = branch.test
+    name = None
+    if isinstance(t, ast.UnaryOp) and isinstance(t.op, ast.Not):
+        x = t.operand
+        if isinstance(x, ast.Call) and call_name(x) == 'len' and x.args:
+            x = x.args[0]
+        name = x.id if isinstance(x, ast.Name) else None
+    elif isinstance(t, ast.Compare) and len(t.ops) == 1 and isinstance(t.ops[0], ast.Eq) and isinstance(t.left, ast.Call) and call_name(t.left) == 'len' \
+            and t.left.args and isinstance(t.left.args[0], ast.Name) and isinstance(t.comparators[0], ast.Constant) and t.comparators[0].value == 0:
+        name = t.left.args[0].id
+    if name is None:
+        return False
+    later = lp.body[lp.body.index(branch) + 1:]
+    return any(isinstance(x, ast.Name) and x.id == name and isinstance(x.ctx, ast.Load) for s_ in later for x in ast.walk(s_))
 
 
 def edge_appends(fn):
@@ -200,9 +223,8 @@ def d2_d3(ctx, rep):
             rep.check('D2.edges', fn, lp.test, paired, f'{clsn}.{meth}: while |S| != n_nodes, |S| = 1 initially, one edge and one new node per iteration',
                       f'{clsn}.{meth}: the node set and the edge list do not grow together from a single start node', construct=f'{clsn}.{meth} edge count')
             for c in other_adds:
-                key = (clsn, meth, short(c, 80))
-                if key in D2_TRIAGE:
-                    rep.triaged('D2.edges', fn, c, f'grows the node set without an edge - triaged: {D2_TRIAGE[key]}', construct=f'{clsn}.{meth}: {short(c, 80)}')
+                if clsn == 'RegularTree' and meth == '_build_kth_tree' and _empty_candidates_branch(lp, c):
+                    rep.triaged('D2.edges', fn, c, f'grows the node set without an edge - triaged: {D2_TRIAGE_REASON}', construct=f'{clsn}.{meth}: empty-candidates branch')
                 else:
                     rep.bad('D2.edges', fn, c, f'{clsn}.{meth}: the node set grows without an edge being added: the tree ends with fewer than n_nodes - 1 edges',
                             construct=f'{clsn}.{meth}: {short(c, 80)}')
@@ -479,6 +501,42 @@ def d5_d6(ctx, rep):
                 construct='direct first path')
     else:
         rep.undecided('D6.shape', df, mk[0] if mk else df.node.name, 'construction of the first direct tree not recognised', construct='direct first path')
+    # the greedy search picks a *column* of the masked tau matrix (argmax over M[end, :]); a variable that has joined the path
+    # is taken out of the search by masking the same axis (M[:, v] = negative): masking the other axis leaves it selectable
+    from ..idioms import private_closure as _pc2
+    for g in _pc2(ctx, df, prog.cls(TREE + 'DirectTree')):
+        def axis_of(sub):
+            """'col' for M[x, :] (ranges over columns), 'row' for M[:, x]; (axis, matrix name) or None"""
+            if isinstance(sub, ast.Subscript) and isinstance(sub.slice, ast.Tuple) and len(sub.slice.elts) == 2 and isinstance(sub.value, ast.Name):
+                a0, a1 = sub.slice.elts
+                full0 = isinstance(a0, ast.Slice) and a0.lower is None and a0.upper is None
+                full1 = isinstance(a1, ast.Slice) and a1.lower is None and a1.upper is None
+                if full1 and not full0:
+                    return 'col', sub.value.id
+                if full0 and not full1:
+                    return 'row', sub.value.id
+            return None
+        searches = [axis_of(c.args[0]) for c in walk_no_nested(g.node) if isinstance(c, ast.Call) and call_name(c) in ('argmax', 'nanargmax') and c.args]
+        searches = [x for x in searches if x]
+        masks = []
+        for s_ in walk_no_nested(g.node):
+            if isinstance(s_, ast.Assign) and isinstance(s_.targets[0], ast.Subscript) and isinstance(const_value(s_.value), (int, float)) \
+                    and not isinstance(const_value(s_.value), bool) and const_value(s_.value) < 0:
+                ax = axis_of(s_.targets[0])
+                if ax:
+                    # M[:, v] removes column v from a search over columns: the store's full slice is on the *other* axis
+                    masks.append(('col' if ax[0] == 'row' else 'row', ax[1], s_))
+        if searches and masks:
+            for m_axis, m_name, s_ in masks:
+                rel = [a for a, nm_ in searches if nm_ == m_name]
+                if not rel:
+                    continue
+                if all(a == m_axis for a in rel):
+                    rep.ok('D6.shape', g, s_, f'a variable that joined the path is masked on the axis the greedy search ranges over ({m_axis}s of `{m_name}`)',
+                           construct=f'greedy mask {short(s_.targets[0], 40)}')
+                elif all(a != m_axis for a in rel):
+                    rep.bad('D6.shape', g, s_, f'`{short(s_, 50)}` masks a {m_axis} of `{m_name}`, but the greedy search takes the arg-max over {rel[0]}s: the variable stays '
+                            'selectable and can be attached twice (cycle, a column left out)', construct=f'greedy mask {short(s_.targets[0], 40)}')
     # the greedy path construction keeps no candidate between iterations
     greedy = [n for n in df.body() if isinstance(n, ast.For) and not any(isinstance(x, ast.Call) and call_name(x) == 'append' and is_self_attr(x.func.value, df.self_name, 'edges') for x in ast.walk(n))]
     for lp in greedy:
